@@ -132,6 +132,18 @@ func runC14(r *mon.Run) {
 				w.Fail("c14/Sign:buffer", "Sign wrote to the message buffer or beyond it: "+m, det...)
 			}
 		}
+		if i%3 == 2 {
+			// the caller overwrites every value the key objects hand out, then signs
+			for _, b := range [][]byte{sk.Bytes(), sk.PublicKey().Bytes(), sk.Scalar().Bytes(), sk.PublicKey().Point().CompressedBytes()} {
+				for j := range b {
+					b[j] ^= 0xc3
+				}
+			}
+			hp := sk.PublicKey().Point()
+			hp.Double(hp)
+			hs := sk.Scalar()
+			hs.Add(hs, hs)
+		}
 		sig, err := sk.Sign(rd, msg, nil)
 		if err != nil {
 			w.Fail("c14/Sign:err", err.Error(), det...)
